@@ -385,9 +385,14 @@ fn run_one(kind: &str, sub: &str, seed: u64, replay: Option<Vec<u8>>) -> (sched:
             for _ in 0..len {
                 match hrng.below(8) {
                     0 | 1 => if live.len() < mx { let li = do_create(ctx, &*ch, &sh, 0); live.push(li); buffered.insert(li, ch.buffer()); /* unknown leftovers of a previous owner of the id */ },
-                    2 | 3 | 4 => if live.iter().all(|li| buffered[li] + 1 < ch.buffer()) { next_v += 1; do_send(ctx, &*ch, &sh, 0, next_v); for li in &live { *buffered.get_mut(li).unwrap() += 1; } },
+                    // (a send may FILL a listener's queue -- the one after that would make the arc channels wait by design)
+                    2 | 3 | 4 => if live.iter().all(|li| buffered[li] < ch.buffer()) { next_v += 1; do_send(ctx, &*ch, &sh, 0, next_v); for li in &live { *buffered.get_mut(li).unwrap() += 1; } },
                     5 | 6 => if !live.is_empty() { let li = live[hrng.below(live.len() as u64) as usize]; let mut emptied = false; for _ in 0..hrng.range(1, 9) { if !do_poll(ctx, &sh, 0, li) { emptied = true; break } } let b = buffered.get_mut(&li).unwrap(); if emptied { *b = 0 } else if *b > 0 && *b < ch.buffer() { *b -= 1 } },
                     _ => if !live.is_empty() {
+                        // sometimes the queues are first filled to the brim: the listener is dropped with exactly BUFFER_SIZE events unconsumed
+                        if hrng.chance(1, 4) {
+                            while live.iter().all(|li| buffered[li] < ch.buffer()) { next_v += 1; do_send(ctx, &*ch, &sh, 0, next_v); for li in &live { *buffered.get_mut(li).unwrap() += 1; } }
+                        }
                         let k = hrng.below(live.len() as u64) as usize; let li = live.remove(k);
                         // sometimes the listener is first told to end (and possibly polled a little more) before it is dropped
                         if hrng.chance(1, 3) {
